@@ -294,6 +294,8 @@ func goVal(m M) interface{} {
 		return r
 	case "nil":
 		return nil
+	case "x":
+		return int(3) // the one foreign value the drivers use: a Go int
 	case "w":
 		var u uint64
 		switch a := m["v"].(type) {
